@@ -392,6 +392,19 @@ class HashWalk(proto.Interp):
         return None
 
 
+def _hash_cmp(self, op, l, r, st):
+    # `buf == b''` / `buf != b''` on a buffer just read is its truth test
+    name = type(op).__name__
+    if name in ('Eq', 'NotEq'):
+        for a_, b_ in ((l, r), (r, l)):
+            if is_t(a_) and a_[1] == 'buf' and is_c(b_) and b_[1] in (b'', ''):
+                return [((not t_) if name == 'Eq' else t_, s_) for t_, s_ in self.truth_of(a_, st)]
+    return proto.Interp.cmp(self, op, l, r, st)
+
+
+HashWalk.cmp = _hash_cmp
+
+
 def check_hash(ctx, R):
     h = R['hash']
     I = HashWalk(ctx.repo, unroll=ctx.bound(2, 4))
